@@ -10,9 +10,12 @@
      axcut      traits/substitution.rs Subst (subst_sim on statements; binders are not renamed)
      core2axcut names/types/context/declaration/def/program/shrinking/statements/*
 
-   State (ShrinkingState): `max_id` and `lifted_statements` (a VecDeque used with push_front only:
-   a list with cons).  `used_labels` is threaded by the Rust code but never READ (the label of a
-   lifted statement is `fresh_identifier(max_id, "lift_<current def>_")`), so it is not modelled.
+   State (ShrinkingState): `max_id`, `lifted_statements` (a VecDeque used with push_front only: a
+   list with cons) and `used_labels` (a HashSet<Identifier> that is only tested with `any` and
+   extended: a list; it starts as the names of all definitions of the program and is threaded
+   through ALL definitions).  `lift` draws `fresh_identifier(max_id, "lift_<current def>_")` in a loop
+   until the PRINTED candidate (`name_id`) differs from the printed form of every used label, then
+   inserts the label (fix fd7ddb1; skipped candidates consume ids).
    `data` (with `_Cont` already pushed), `codata`, `current_label` are the read-only part [senv].
 
    Order of side effects = Rust evaluation order (struct-literal fields are evaluated in the order
@@ -25,6 +28,9 @@
                             the new definition is pushed to the FRONT after the body was shrunk
      IfC                    thenc, elsec
 
+   Fuel of the label loop: at most one iteration per used label can fail (candidates have pairwise
+   different printed forms), so `S (length used_labels)` iterations suffice
+   (Proof/ShrinkProof.v: fresh_label_total).
    Fuel: `shrink_renaming`, `shrink_known_cuts` and `lift` call `shrink` on a SUBSTITUTED statement,
    so the recursion is not structural.  Measure: [fsz s], the number of statement/term/clause
    nodes; variable-for-variable substitution preserves it and every recursive call is on a proper
@@ -261,12 +267,12 @@ with fsz (s : fsstmt) : nat :=
   end.
 
 (* ---------- shrinking.rs: the state ---------- *)
-Record sst := mksst { s_max : N; s_lifted : list def }.
+Record sst := mksst { s_max : N; s_lifted : list def; s_used : list cident }.
 Record senv := mksenv { e_data : list ctydecl; e_codata : list ctydecl; e_label : string }.
 
 (* names.rs: fresh_identifier(max_id, base) *)
 Definition fresh_identifier (st : sst) (base : string) : cident * sst :=
-  let m := N.succ (s_max st) in ((base, m), mksst m (s_lifted st)).
+  let m := N.succ (s_max st) in ((base, m), mksst m (s_lifted st) (s_used st)).
 Definition fresh_var (st : sst) : cident * sst := fresh_identifier st "x".
 
 (* the continuation xtor application  `var.Ret(x)`  used by the integer cases *)
@@ -331,6 +337,18 @@ Fixpoint critical_clauses (codata : list ctydecl) (var_expand : cident) (transla
         Let (shrink_identifier var) translated_ty (shrink_identifier xtor) env next) :: r', stc)
   end.
 
+(* the label loop of `lift`: candidates until the printed form (Identifier::print: `name_id`) is not
+   the printed form of a used label *)
+Fixpoint fresh_label (fuel : nat) (used : list cident) (base : string) (st : sst) : option (cident * sst) :=
+  match fuel with
+  | O => None
+  | S fuel =>
+      let '(candidate, st1) := fresh_identifier st base in
+      if existsb (fun u => String.eqb (show_cident u) (show_cident candidate)) used
+      then fresh_label fuel used base st1
+      else Some (candidate, st1)
+  end.
+
 Section Open.
 (* the recursive call `.shrink(state)` on statements (open recursion; closed by fuel below) *)
 Variable rec : fsstmt -> sst -> shres (stmt * sst).
@@ -375,11 +393,15 @@ Fixpoint lift_params (fvs : list cbinding) (st : sst) : (cctx * csubst) * sst :=
 Definition lift (statement : fsstmt) (st : sst) : shres (stmt * sst) :=
   let fvs := typed_free_vars statement in
   let '((context, sub), st1) := lift_params fvs st in
-  let '(label, st2) := fresh_identifier st1 ("lift_" ++ e_label E ++ "_") in
-  let context := shrink_context (e_codata E) context in
-  dos (body, st3) <- rec (subst_stmt sub statement) st2;
-  let st4 := mksst (s_max st3) (mkd (shrink_identifier label) context body :: s_lifted st3) in
-  SOk (Call (shrink_identifier label) (shrink_context (e_codata E) fvs), st4).
+  match fresh_label (S (List.length (s_used st1))) (s_used st1) ("lift_" ++ e_label E ++ "_") st1 with
+  | None => SErr "label loop: out of fuel"
+  | Some (label, st2) =>
+      let st2 := mksst (s_max st2) (s_lifted st2) (label :: s_used st2) in          (* used_labels.insert(label) *)
+      let context := shrink_context (e_codata E) context in
+      dos (body, st3) <- rec (subst_stmt sub statement) st2;
+      let st4 := mksst (s_max st3) (mkd (shrink_identifier label) context body :: s_lifted st3) (s_used st3) in
+      SOk (Call (shrink_identifier label) (shrink_context (e_codata E) fvs), st4)
+  end.
 
 (* the sharing condition of shrink_critical_pairs: true = shrink in place, false = lift *)
 Definition is_leaf_statement (s : fsstmt) : bool :=
@@ -492,19 +514,20 @@ Fixpoint shrink_stmt (fuel : nat) (E : senv) (s : fsstmt) (st : sst) {struct fue
   end.
 
 (* ---------- def.rs: shrink_def: the definition followed by its lifted statements, most recent first ---------- *)
-Definition shrink_def (d : fsdef) (data codata : list ctydecl) (max_id : N) : shres (list def * N) :=
+Definition shrink_def (d : fsdef) (data codata : list ctydecl) (used : list cident) (max_id : N)
+  : shres (list def * list cident * N) :=
   let E := mksenv data codata (fst (fsdname d)) in
-  dos (body, st) <- shrink_stmt (fsz (fsdbody d)) E (fsdbody d) (mksst max_id []);
-  SOk (mkd (shrink_identifier (fsdname d)) (shrink_context codata (fsdctx d)) body :: s_lifted st, s_max st).
+  dos (body, st) <- shrink_stmt (fsz (fsdbody d)) E (fsdbody d) (mksst max_id [] used);
+  SOk (mkd (shrink_identifier (fsdname d)) (shrink_context codata (fsdctx d)) body :: s_lifted st, s_used st, s_max st).
 
 (* ---------- program.rs: shrink_prog ---------- *)
-Fixpoint shrink_defs (ds : list fsdef) (data codata : list ctydecl) (max_id : N) (acc : list def)
+Fixpoint shrink_defs (ds : list fsdef) (data codata : list ctydecl) (used : list cident) (max_id : N) (acc : list def)
   : shres (list def * N) :=
   match ds with
   | [] => SOk (frev acc, max_id)
   | d :: r =>
-      dos (out, m) <- shrink_def d data codata max_id;
-      shrink_defs r data codata m (rev_append out acc)
+      dos (out, used', m) <- shrink_def d data codata used max_id;
+      shrink_defs r data codata used' m (rev_append out acc)
   end.
 Definition shrink_prog (p : fsprog) : shres prog :=
   if existsb (fun t => cident_eqb (ctname t) cont_name) (fspdata p)
@@ -513,5 +536,6 @@ Definition shrink_prog (p : fsprog) : shres prog :=
   else
     let data := fspdata p ++ [cont_int] in
     let codata := fspcodata p in
-    dos (defs, m) <- shrink_defs (fspdefs p) data codata (fspmax p) [];
+    let used_labels := map fsdname (fspdefs p) in
+    dos (defs, m) <- shrink_defs (fspdefs p) data codata used_labels (fspmax p) [];
     SOk (mkp defs (map (shrink_declaration codata) data ++ map (shrink_declaration codata) codata) m).
